@@ -9,6 +9,7 @@ TypeCheckError), body not run."""
 from __future__ import annotations
 
 import asyncio
+import dataclasses
 import inspect
 import warnings
 
@@ -38,6 +39,13 @@ ASSUMPTIONS = [
 ]
 
 COLLIDING = set(gs.NAME_POOL) - {"x", "y", "z"}
+
+
+@dataclasses.dataclass(frozen=True)
+class FrozenError(Exception):
+    """an exception whose instances reject attribute assignment (add_note raises FrozenInstanceError)"""
+
+    code: str = "frozen"
 
 
 class BodyRecorder:
@@ -123,7 +131,8 @@ def check_case(ctx, case):
     rec = BodyRecorder()
     if case.get("ret_ann") == "iterator":
         rec.result = (i for i in range(3))  # a plain function annotated '-> Iterator[int]' that returns a generator object
-    body_exc = {"ValueError": ValueError, "RecursionError": RecursionError, "MemoryError": MemoryError, "LookupError": LookupError}[case.get("body_exc", "ValueError")]
+    body_exc = {"ValueError": ValueError, "RecursionError": RecursionError, "MemoryError": MemoryError, "LookupError": LookupError,
+                "FrozenError": FrozenError}[case.get("body_exc", "ValueError")]
     ns = {"__body": rec}
     src, ns = gs.render(full, fname, kind=kind, ret_ann=case.get("ret_ann"), ns=ns)
     try:
@@ -198,6 +207,24 @@ def check_case(ctx, case):
         raise AssertionError
 
     n_calls = 0
+    if desc == "function" and kind == "def" and not via:
+        # the old double-decorator spelling jaxtyped(typechecker(f)): an exception raised by the body reaches the caller as the very
+        # same object there too (the wrapper tries to attach a note with the bindings to it, which must never replace it)
+        made = gs.make_args(params, style_seed=case["styles"][0])
+        if made is not None:
+            import warnings as _w
+
+            with _w.catch_warnings():
+                _w.simplefilter("ignore")
+                old = jaxtyped(tc(gs.compile_fn(src, dict(ns), fname, postponed=bool(case.get("postponed", True)))))
+            args, kwargs, _ = made
+            rec.exc = body_exc("from body")
+            rec.calls.clear()
+            st_, val = drive(kind, old, list(args), dict(kwargs))
+            if not (st_ == "raise" and val is rec.exc):
+                raise Violation("exception-identity", case, f"old-style jaxtyped(typechecker(f)): body raised {rec.exc!r}, caller saw {st_} {val!r} args={args!r} kwargs={kwargs!r} {info}")
+            rec.exc = None
+            rec.calls.clear()
     if desc == "property":
         for raising in (False, True):
             rec.exc = body_exc("from body") if raising else None
@@ -349,7 +376,7 @@ def c07_case(draw):
         "styles": [0, draw(st.integers(1, 15)), 15, draw(st.integers(16, 31))],
         "ret_ann": draw(st.sampled_from(["obj", None, "iterator", None])) if kind != "async" else draw(st.sampled_from([None, "obj"])),
         "postponed": draw(st.sampled_from([False, True])),  # evaluated annotation objects / 'from __future__ import annotations'
-        "body_exc": draw(st.sampled_from(["ValueError", "RecursionError", "ValueError", "MemoryError", "LookupError"])),
+        "body_exc": draw(st.sampled_from(["ValueError", "RecursionError", "ValueError", "MemoryError", "LookupError", "FrozenError"])),
         "lambda_annotations": draw(st.sampled_from([True, False])),
         "via": draw(st.sampled_from([None, "wraps", None, "asyncwrap", None])),
     }
